@@ -149,7 +149,7 @@ func c01(r *core.Run) {
 		c06Units(r, "F4", root, ro, true)
 		c06PureLookup(r, "F5")
 	}
-	c01GroupArg(r, a, root)
+	c01GroupArg(r, "F2", a, root)
 }
 
 func valDescQ(v ssa.Value, a *svcAnchors) string {
@@ -1068,7 +1068,7 @@ func c01Funnel(r *core.Run, rule string, a *svcAnchors, root []*ssa.Function) {
 
 // ---- F2 --------------------------------------------------------------------
 
-func c01GroupArg(r *core.Run, a *svcAnchors, root []*ssa.Function) {
+func c01GroupArg(r *core.Run, rule string, a *svcAnchors, root []*ssa.Function) {
 	p := r.P
 	matchGroup := core.Field{Struct: "Match", Name: "Group"}
 	resGroup := core.Field{Struct: "resource", Name: "group"}
@@ -1082,7 +1082,7 @@ func c01GroupArg(r *core.Run, a *svcAnchors, root []*ssa.Function) {
 		arg := c.Common().Args[gidx]
 		fname := core.FuncName(c.Parent())
 		desc, ok := classifyGroupArg(arg, c, a, matchGroup)
-		r.Check(ok, "F2", fname, "enqueue-group-arg:"+desc, p.InstrPos(c), "group id is "+desc, "group id passed to enqueue is not the routed group: "+desc)
+		r.Check(ok, rule, fname, "enqueue-group-arg:"+desc, p.InstrPos(c), "group id is "+desc, "group id passed to enqueue is not the routed group: "+desc)
 	}
 	// (*resource).Group returns resource.group
 	for _, fn := range methodsOf(p, "", "resource") {
@@ -1091,7 +1091,7 @@ func c01GroupArg(r *core.Run, a *svcAnchors, root []*ssa.Function) {
 		}
 		for _, ret := range core.Returns(fn) {
 			f, ok := core.LoadedField(ret.Results[0])
-			r.Check(ok && f == resGroup, "F2", core.FuncName(fn), "returns-resource.group", p.InstrPos(ret), "Group() returns the stored routed group", "Group() returns something other than the stored group")
+			r.Check(ok && f == resGroup, rule, core.FuncName(fn), "returns-resource.group", p.InstrPos(ret), "Group() returns the stored routed group", "Group() returns something other than the stored group")
 		}
 	}
 	// writers of resource.group
@@ -1101,7 +1101,7 @@ func c01GroupArg(r *core.Run, a *svcAnchors, root []*ssa.Function) {
 		}
 		st := ac.Instr.(*ssa.Store)
 		f, ok := core.LoadedField(st.Val)
-		r.Check(ok && f == matchGroup, "F2", core.FuncName(ac.Fn), "store(resource.group)<-Match.Group", p.InstrPos(st), "resource.group is the routed Match.Group", "resource.group written from "+valDesc(st.Val))
+		r.Check(ok && f == matchGroup, rule, core.FuncName(ac.Fn), "store(resource.group)<-Match.Group", p.InstrPos(st), "resource.group is the routed Match.Group", "resource.group written from "+valDesc(st.Val))
 	}
 	// writers of Match.Group: result of (group).toString on the matched node's handler group
 	for _, ac := range core.FieldAccesses(root, func(f core.Field) bool { return f == matchGroup }) {
@@ -1127,11 +1127,11 @@ func c01GroupArg(r *core.Run, a *svcAnchors, root []*ssa.Function) {
 					break
 				}
 			}
-			r.Check(nameOK, "F2", core.FuncName(ac.Fn), "default-group<-full-resource-name", p.InstrPos(c), "an unset group defaults to the full resource name", "the group template is evaluated with "+valDesc(c.Common().Args[1])+" instead of the full resource name: a handler without a Group option gets the wrong (possibly empty = parallel) worker group")
+			r.Check(nameOK, rule, core.FuncName(ac.Fn), "default-group<-full-resource-name", p.InstrPos(c), "an unset group defaults to the full resource name", "the group template is evaluated with "+valDesc(c.Common().Args[1])+" instead of the full resource name: a handler without a Group option gets the wrong (possibly empty = parallel) worker group")
 		}
-		r.Check(good, "F2", core.FuncName(ac.Fn), "store(Match.Group)<-regHandler.group.toString", p.InstrPos(st), "Match.Group is the registered group template evaluated on the name", "Match.Group written from "+valDesc(st.Val))
+		r.Check(good, rule, core.FuncName(ac.Fn), "store(Match.Group)<-regHandler.group.toString", p.InstrPos(st), "Match.Group is the registered group template evaluated on the name", "Match.Group written from "+valDesc(st.Val))
 	}
-	c01ParallelGroup(r, "F2")
+	c01ParallelGroup(r, rule)
 }
 
 // c01ParallelGroup: registration gives a Parallel handler the empty group and parses the template otherwise (C01.F2; shared with C06.R8).
